@@ -3,7 +3,7 @@
 pub enum Role { LOCKFILE, STAGING_DIR, CAS_DIR, DB_DIR, QUARANTINE_DIR, CAS_SUBDIR, DIR_OF_BLOB,
     STAGING, BLOB, QUARANTINE, WALSEG, OLDSEG, SNAP_TMP, SNAP, TMP, TMP_FILE, TARGET, SETTINGS, INVALID_OR_STAGING_LEFTOVER, UNKNOWN }
 
-pub enum F { Intents, StateW, StateR, Wal, CsApplied, CsFiltered, CsOrphanOk, SyncMode, StagingFlushed, StagingSynced, BlobAtFinal, IntentRegistered, GuardAlive, WalWritten, WalFlushed, WalDurable, Applied, TmpWritten, TmpSynced, TargetRenamed, SnapSaved, NewsegCreated, NewsegSynced, Deleted, ToDeleteNonempty, OwnsDirlock, StoredExists, SettingsMatch, WantPrecreate, DirsPrecreated }
+pub enum F { Intents, StateW, StateR, Wal, CsApplied, CsFiltered, CsOrphanOk, SyncMode, StagingFlushed, StagingSynced, BlobAtFinal, IntentRegistered, GuardAlive, WalWritten, WalFlushed, WalDurable, Applied, TmpWritten, TmpSynced, TargetRenamed, SnapSaved, NewsegCreated, NewsegSynced, Deleted, ToDeleteNonempty, OwnsDirlock, StoredExists, SettingsMatch, WantPrecreate, DirsPrecreated, Looked }
 /// the World is the set of flags that are currently true (see DESIGN.md Appendix A for their meaning)
 pub struct World { pub s: Set<F> }
 impl World {
@@ -189,3 +189,10 @@ pub open spec fn is_dir_role(r: Role) -> bool { r == Role::STAGING_DIR || r == R
 /// end of IntentGuard::drop: this transaction's guard is gone (and with it its registration, unless committed)
 #[verifier::external_body] pub fn ev_guard_dropped(w: &mut World)
     ensures *final(w) == old(w).set(F::GuardAlive, false).set(F::IntentRegistered, false) { unimplemented!() }
+
+/// the index lookup of a public read operation: one consistent snapshot (hash and size from the same entry) per call
+#[verifier::external_body] pub fn ev_index_lookup(w: &mut World)
+    requires
+        /*lookup_under_index_guard*/ old(w).has(F::StateR),
+        /*single_index_snapshot_per_read*/ !old(w).has(F::Looked),
+    ensures *final(w) == old(w).set(F::Looked, true) { unimplemented!() }
